@@ -590,6 +590,117 @@ type quarGen struct {
 	r    *RNG
 	out  *Out
 	recs []quarRecView // records in the implementation's last dump (steers accept/decline/top-ups)
+	// focus: a burst of accepts / declines on the senders of ONE record (partial accept, decline of an
+	// accepted sender, decline on an already declined record, ... and finally an accept of whatever the
+	// implementation still lists as unaccepted), so that "paid only when every sender is currently
+	// accepted" is exercised along long accept/decline interleavings
+	focusTo   string
+	focusAll  []string
+	focusLeft int
+	// probe: after the receiver said something about a sender (accept, decline, auto-response), that
+	// sender sends to it again - is the delivery what the receiver's words so far imply?
+	probe string
+}
+
+// focusRec returns the focused record as the implementation currently lists it (nil when it is gone).
+func (g *quarGen) focusRec() *quarRecView {
+	for i := range g.recs {
+		rv := &g.recs[i]
+		if rv.to != g.focusTo || len(rv.all) != len(g.focusAll) {
+			continue
+		}
+		a := append([]string{}, rv.all...)
+		b := append([]string{}, g.focusAll...)
+		sort.Strings(a)
+		sort.Strings(b)
+		if strings.Join(a, ",") == strings.Join(b, ",") {
+			return rv
+		}
+	}
+	return nil
+}
+
+func (g *quarGen) plainCoins() string {
+	return fmt.Sprintf("%d%s", 1+g.r.Intn(9), quarDenoms[g.r.Intn(2)])
+}
+
+// steered returns the next op of a running focus burst / probe ("" = none).
+func (g *quarGen) steered() string {
+	if g.probe != "" {
+		line := g.probe
+		g.probe = ""
+		g.out.Count("gen:probe_send")
+		return line
+	}
+	if g.focusLeft <= 0 {
+		return ""
+	}
+	rv := g.focusRec()
+	if rv == nil || len(rv.unacc) == 0 {
+		g.focusLeft = 0
+		return ""
+	}
+	g.focusLeft--
+	g.out.Count("gen:focus_op")
+	if g.focusLeft == 0 {
+		// finish: accept everything the implementation still lists as unaccepted
+		return fmt.Sprintf("accept %s %s %s", rv.to, JoinOr(rv.unacc, "|"), g.perm())
+	}
+	var acc []string
+	for _, a := range rv.all {
+		un := false
+		for _, u := range rv.unacc {
+			if u == a {
+				un = true
+			}
+		}
+		if !un {
+			acc = append(acc, a)
+		}
+	}
+	switch k := g.r.Intn(10); {
+	case k < 3 && len(rv.unacc) > 1: // partial accept
+		return fmt.Sprintf("accept %s %s %s", rv.to, Pick(g.r, rv.unacc), g.perm())
+	case k < 5 && len(acc) > 0: // take an acceptance back
+		return fmt.Sprintf("decline %s %s %s", rv.to, Pick(g.r, acc), g.perm())
+	case k < 7: // decline somebody still unaccepted (marks the record declined)
+		return fmt.Sprintf("decline %s %s %s", rv.to, Pick(g.r, rv.unacc), g.perm())
+	case k < 8: // decline several at once
+		n := 1 + g.r.Intn(len(rv.all))
+		return fmt.Sprintf("decline %s %s %s", rv.to, JoinOr(rv.all[:n], "|"), g.perm())
+	case k < 9 && len(acc) > 0: // accept somebody already accepted again
+		return fmt.Sprintf("accept %s %s %s", rv.to, Pick(g.r, acc), g.perm())
+	default:
+		return fmt.Sprintf("accept %s %s %s", rv.to, Pick(g.r, rv.all), g.perm())
+	}
+}
+
+// after looks at the op just executed and may start a focus burst or schedule a probe.
+func (g *quarGen) after(line, res string) {
+	ws := strings.Fields(line)
+	if !strings.HasPrefix(res, "ok") || len(ws) < 3 {
+		return
+	}
+	switch ws[0] {
+	case "qadd":
+		fs := strings.Split(ws[2], "|")
+		if g.focusLeft == 0 && len(fs) >= 2 && g.r.Chance(40) {
+			g.focusTo, g.focusAll, g.focusLeft = ws[1], fs, 3+g.r.Intn(5)
+			g.out.Count("gen:focus_started")
+		}
+	case "accept", "decline":
+		if ws[2] != "-" && g.r.Chance(35) {
+			f := Pick(g.r, strings.Split(ws[2], "|"))
+			if f != "E+" {
+				g.probe = fmt.Sprintf("send %s %s %s", f, ws[1], g.plainCoins())
+			}
+		}
+	case "auto":
+		if ws[2] != "-" && g.r.Chance(35) {
+			u := Pick(g.r, strings.Split(ws[2], "|"))
+			g.probe = fmt.Sprintf("send %s %s %s", strings.SplitN(u, ":", 2)[0], ws[1], g.plainCoins())
+		}
+	}
 }
 
 // observe parses the record section of a dump.
@@ -710,6 +821,9 @@ func (g *quarGen) perm() string {
 
 // hot: the receivers of this history that opted in (so that sends hit quarantine often)
 func (g *quarGen) op(hot []string) string {
+	if line := g.steered(); line != "" {
+		return line
+	}
 	to := g.acct()
 	if len(hot) > 0 && g.r.Chance(75) {
 		to = Pick(g.r, hot)
@@ -903,6 +1017,7 @@ func quarDrive(t *testing.T, rng *RNG, n int, out *Out) {
 		out.Comment(fmt.Sprintf("history %d", h))
 		line := g.initLine()
 		g.recs = nil
+		g.focusLeft, g.probe = 0, ""
 		out.Emit(line, e.exec(line))
 		steps := 12 + rng.Intn(29)
 		if *flagTier == "thorough" {
@@ -944,6 +1059,7 @@ func quarDrive(t *testing.T, rng *RNG, n int, out *Out) {
 			out.Emit(line, res)
 			quarCountRes(out, line, res)
 			g.observe(res)
+			g.after(line, res)
 		}
 	}
 }
